@@ -1,4 +1,411 @@
-/-! Model/C15 — executable model (core Lean only; imports only NibabelModel.Basic.* / other Model files). -/
+import NibabelModel.Basic.PySlice
+/-! Model/C15 — executable model of `nibabel/streamlines/array_sequence.py` (core Lean only).
+
+  A *heap* of row buffers (`_data` ndarrays, identified by the ndarray object), and *sequences*
+  that point into one buffer with a list of `(offset, length)` row ranges (`_offsets[i]`,
+  `_lengths[i]` — the code always indexes the two arrays together, so they are one list of pairs
+  here).  A row is a flat `List Int` (the trailing dims of the real array raveled); the dtype is
+  an abstract tag (`dt`) whose only modelled effect is its item size (rows per buffer).
+
+  Abstractions (each exercised by the correspondence run, see harness/props/c15.py):
+  * `np.empty` / `resize` filler rows are never materialised: a buffer keeps the *written prefix*
+    `rows` and its allocated row count `cap` (`_data.shape[0]`).
+  * `ndarray.resize(refcheck=True)` succeeds in place exactly when no other live object holds the
+    ndarray; live holders are the other live sequences (the harness keeps no ndarray between
+    steps), so "another live sequence has the same buffer id" is the refcheck failure.
+  * a cached build (`append(cache_build=True)` … `finalize_append()`) is one atomic operation
+    (`extendGen`); the build cache is threaded through the loop instead of living in the object.
+  * common-shape / dtype-cast errors are outside the model (the generators keep one common shape
+    per history and integer-valued data).
+-/
 namespace Nb.C15
+open Nb
+
+abbrev Row := List Int
+/-- one array of the sequence: its rows (first axis) -/
+abbrev Elem := List Row
+
+/-- `MEGABYTE`, array_sequence.py:7 -/
+def MB : Nat := 1024 * 1024
+/-- default `buffer_size=4` (Mb), array_sequence.py:115 — also what `copy()`/`__getitem__` get
+    through `self.__class__()` -/
+def defaultBufBytes : Nat := 4 * MB
+
+/-- dtype tags used by the harness: 0=f8 1=i8 2=i4 3=i2 4=f4 (item sizes checked at import) -/
+def itemsize : Nat → Nat
+  | 0 => 8 | 1 => 8 | 2 => 4 | 3 => 2 | 4 => 4 | _ => 8
+
+/-- one `_data` ndarray -/
+structure Buf where
+  rows : List Row      -- written prefix
+  cap  : Nat           -- `_data.shape[0]`
+  dt   : Nat           -- dtype tag
+  deriving Repr, DecidableEq, Inhabited
+
+/-- one `ArraySequence` object -/
+structure Seq where
+  buf : Nat                      -- which ndarray `_data` is
+  ranges : List (Nat × Nat)      -- `zip(_offsets, _lengths)`
+  isView : Bool                  -- `_is_view`
+  bufBytes : Nat                 -- `_buffer_size * MEGABYTE`
+  deriving Repr, DecidableEq, Inhabited
+
+structure State where
+  heap : List Buf
+  seqs : List Seq                -- all live sequences
+  deriving Repr, DecidableEq, Inhabited
+
+/-- no sequences; buffer 0 is never used (keeps ids ≥ 1 for readability only) -/
+def State.init : State := ⟨[], []⟩
+
+def State.bufAt (σ : State) (b : Nat) : Buf := σ.heap.getD b default
+def State.seqAt (σ : State) (t : Nat) : Seq := σ.seqs.getD t default
+def State.setBuf (σ : State) (b : Nat) (x : Buf) : State := { σ with heap := σ.heap.set b x }
+def State.setSeq (σ : State) (t : Nat) (s : Seq) : State := { σ with seqs := σ.seqs.set t s }
+/-- a new ndarray object -/
+def State.alloc (σ : State) (x : Buf) : State × Nat := ({ σ with heap := σ.heap ++ [x] }, σ.heap.length)
+def State.addSeq (σ : State) (s : Seq) : State := { σ with seqs := σ.seqs ++ [s] }
+
+/-- `_data[off : off+len]` -/
+def Buf.slice (b : Buf) (off len : Nat) : Elem := (b.rows.drop off).take len
+
+/-- rows list padded with filler up to length `n` (filler = never observed) -/
+def padTo (rows : List Row) (n : Nat) : List Row := rows ++ List.replicate (n - rows.length) []
+
+/-- `_data[p : p+len(new)] = new` -/
+def Buf.write (b : Buf) (p : Nat) (new : Elem) : Buf :=
+  { b with rows := (padTo b.rows p).take p ++ new ++ b.rows.drop (p + new.length) }
+
+/-- `_data.resize((n,)+common_shape)` seen on the written prefix -/
+def Buf.resize (b : Buf) (n : Nat) : Buf := { b with rows := b.rows.take n, cap := n }
+
+/-- the arrays a sequence shows: `list(seq)`, array_sequence.py:536-543 -/
+def contentsOf (b : Buf) (ranges : List (Nat × Nat)) : List Elem := ranges.map (fun r => b.slice r.1 r.2)
+def State.contents (σ : State) (t : Nat) : List Elem :=
+  contentsOf (σ.bufAt (σ.seqAt t).buf) (σ.seqAt t).ranges
+
+/-- helper of `nextOffset`: the pair with the largest offset, first one on ties (`np.argmax`) -/
+def argmaxOff (best : Nat × Nat) : List (Nat × Nat) → Nat × Nat
+  | [] => best
+  | r :: rest => if r.1 > best.1 then argmaxOff r rest else argmaxOff best rest
+
+/-- `_get_next_offset`, array_sequence.py:196-201 -/
+def nextOffset (ranges : List (Nat × Nat)) : Nat :=
+  match ranges with
+  | [] => 0
+  | r :: rest => let m := argmaxOff r rest; m.1 + m.2
+
+/-- is the ndarray of sequence `t` held by another live sequence? (refcheck of `resize`) -/
+def State.shared (σ : State) (t : Nat) : Bool :=
+  (List.range σ.seqs.length).any (fun u => u != t && (σ.seqAt u).buf == (σ.seqAt t).buf)
+
+/-- `_BuildCache`, array_sequence.py:24-41 -/
+structure Cache where
+  ranges : List (Nat × Nat)
+  next : Nat
+  rpb : Nat      -- rows_per_buf
+  dt : Nat       -- dtype for a first allocation
+  deriving Repr, DecidableEq, Inhabited
+
+/-- `_BuildCache.__init__`; `w` = number of items in a row, `dt` = dtype of the element passed -/
+def mkCache (σ : State) (t : Nat) (w dt : Nat) : Cache :=
+  let s := σ.seqAt t
+  let b := σ.bufAt s.buf
+  { ranges := s.ranges, next := nextOffset s.ranges,
+    rpb := max 1 (s.bufBytes / (w * itemsize dt)),
+    dt := if b.cap == 0 then dt else b.dt }
+
+def packRanges (next : Nat) : List Nat → List (Nat × Nat)
+  | [] => []
+  | l :: ls => (next, l) :: packRanges (next + l) ls
+
+/-- `copy()`, array_sequence.py:338-367: a compacted private buffer; result is NOT added to the
+    live sequences here -/
+def copySeq (σ : State) (t : Nat) : State × Seq :=
+  let s := σ.seqAt t
+  let b := σ.bufAt s.buf
+  let els := contentsOf b s.ranges
+  let (σ', id) := σ.alloc { rows := els.flatten, cap := (s.ranges.map (·.2)).sum, dt := b.dt }
+  (σ', { buf := id, ranges := packRanges 0 (s.ranges.map (·.2)), isView := false,
+         bufBytes := defaultBufBytes })
+
+/-- `_own_data`, array_sequence.py:203-208 -/
+def ownData (σ : State) (t : Nat) : State :=
+  let s := σ.seqAt t
+  if s.isView then
+    let (σ', c) := copySeq σ t
+    σ'.setSeq t { s with buf := c.buf, ranges := c.ranges, isView := false }
+  else σ
+
+/-- `_resize_data_to`, array_sequence.py:280-293 -/
+def resizeDataTo (σ : State) (t : Nat) (nRows : Nat) (c : Cache) : State :=
+  let s := σ.seqAt t
+  let b := σ.bufAt s.buf
+  let ext := ((nRows + c.rpb - 1) / c.rpb) * c.rpb
+  if b.cap == 0 then
+    let (σ', id) := σ.alloc { rows := [], cap := ext, dt := c.dt }
+    σ'.setSeq t { s with buf := id }
+  else if ext == b.cap then σ      -- `resize` to the same size: no refcheck, nothing happens
+  else if σ.shared t then
+    let (σ', id) := σ.alloc (b.resize ext)
+    σ'.setSeq t { s with buf := id }
+  else σ.setBuf s.buf (b.resize ext)
+
+/-- body of `append` once the build cache is known, array_sequence.py:250-257 -/
+def appendCore (σ : State) (t : Nat) (el : Elem) (c : Cache) : State × Cache :=
+  let req := c.next + el.length
+  let σ1 := if (σ.bufAt (σ.seqAt t).buf).cap < req then resizeDataTo σ t req c else σ
+  let bid := (σ1.seqAt t).buf
+  let σ2 := σ1.setBuf bid ((σ1.bufAt bid).write c.next el)
+  (σ2, { c with ranges := c.ranges ++ [(c.next, el.length)], next := req })
+
+/-- `_BuildCache.update_seq` -/
+def updateSeq (σ : State) (t : Nat) (c : Cache) : State :=
+  σ.setSeq t { σ.seqAt t with ranges := c.ranges }
+
+/-- one-shot `append(element)`, array_sequence.py:210-263 -/
+def append (σ : State) (t : Nat) (el : Elem) (w dt : Nat) : State :=
+  if el.isEmpty then σ else
+  let σ0 := ownData σ t
+  let (σ1, c) := appendCore σ0 t el (mkCache σ0 t w dt)
+  updateSeq σ1 t c
+
+/-- `shrink_data`, array_sequence.py:295-296 (refcheck=False: in place on the shared ndarray) -/
+def shrinkData (σ : State) (t : Nat) : State :=
+  let s := σ.seqAt t
+  σ.setBuf s.buf ((σ.bufAt s.buf).resize (nextOffset s.ranges))
+
+/-- the loop `for e in elements: self.append(e, cache_build=True)` inside a cached build -/
+def appendLoop (σ : State) (t : Nat) (c : Cache) : List Elem → State × Cache
+  | [] => (σ, c)
+  | e :: es =>
+    if e.isEmpty then appendLoop σ t c es
+    else let (σ', c') := appendCore σ t e c; appendLoop σ' t c' es
+
+/-- `finalize_append` with a build cache, array_sequence.py:265-278 -/
+def finalize (σ : State) (t : Nat) (c : Cache) : State := shrinkData (updateSeq σ t c) t
+
+/-- `extend(elements)` for a sized iterable, array_sequence.py:298-336;
+    `w`,`dt` come from `elements[0]` -/
+def extendList (σ : State) (t : Nat) (els : List Elem) (w dt : Nat) : State :=
+  if els.isEmpty then σ else
+  let σ0 := ownData σ t
+  let c := mkCache σ0 t w dt
+  let σ1 := resizeDataTo σ0 t (c.next + (els.map List.length).sum) c
+  let (σ2, c') := appendLoop σ1 t c els
+  finalize σ2 t c'
+
+/-- `extend(generator)`: no pre-allocation; the cache is created by the first non-empty append
+    (`w`,`dt` of that element) -/
+def extendGen (σ : State) (t : Nat) (els : List Elem) (w dt : Nat) : State :=
+  match els.filter (fun e => !e.isEmpty) with
+  | [] => σ
+  | e :: es =>
+    let σ0 := ownData σ t
+    let (σ1, c) := appendCore σ0 t e (mkCache σ0 t w dt)
+    let (σ2, c') := appendLoop σ1 t c es
+    finalize σ2 t c'
+
+/-- `copy()` as an operation creating a new live sequence -/
+def copyOp (σ : State) (t : Nat) : State :=
+  let (σ', c) := copySeq σ t
+  σ'.addSeq c
+
+/-- `ArraySequence(seq)`, array_sequence.py:140-146 -/
+def viewCtor (σ : State) (t : Nat) (bufBytes : Nat) : State :=
+  let s := σ.seqAt t
+  σ.addSeq { buf := s.buf, ranges := s.ranges, isView := true, bufBytes := bufBytes }
+
+/-- `seq[slice]` / `seq[list]` / `seq[mask]` once the positions are known,
+    array_sequence.py:392-410 -/
+def getView (σ : State) (t : Nat) (pos : List Nat) : State :=
+  let s := σ.seqAt t
+  σ.addSeq { buf := s.buf, ranges := pos.filterMap (fun i => s.ranges[i]?), isView := true,
+             bufBytes := defaultBufBytes }
+
+/-- NumPy integer-list indexing of a length-`n` axis: every entry must be in range -/
+def fancyPos (n : Nat) (idx : List Int) : Option (List Nat) := idx.mapM (pyIntIndex n)
+
+/-- NumPy boolean-mask indexing: the mask must have the axis length -/
+def maskPos (n : Nat) (mask : List Bool) : Option (List Nat) :=
+  if mask.length = n then some ((List.range n).filter (fun i => mask.getD i false)) else none
+
+/-- `seq[i] = arr` (same number of rows), array_sequence.py:433-436 -/
+def setRange (σ : State) (bid : Nat) (r : Nat × Nat) (el : Elem) : State :=
+  σ.setBuf bid ((σ.bufAt bid).write r.1 el)
+
+/-- the zip loops of `__setitem__`, array_sequence.py:476-478 -/
+def setMany (σ : State) (bid : Nat) : List (Nat × Nat) → List Elem → State
+  | r :: rs, e :: es => setMany (setRange σ bid r e) bid rs es
+  | _, _ => σ
+
+/-- elementwise arithmetic `arr ∘ k` on one array; `code` 0: `+ k`, 1: `* k`, 2: `- k` -/
+def arith (code : Nat) (k : Int) (el : Elem) : Elem :=
+  el.map (fun row => row.map (fun x => match code with | 0 => x + k | 1 => x * k | _ => x - k))
+
+/-- the loop of `_op` (scalar operand): read range `src` of buffer `sb`, write to range `dst`
+    of buffer `db`, array_sequence.py:523-532 -/
+def opLoop (f : Elem → Elem) (σ : State) (db sb : Nat) : List (Nat × Nat) → List (Nat × Nat) → State
+  | d :: ds, s :: ss => opLoop f (setRange σ db d (f ((σ.bufAt sb).slice s.1 s.2))) db sb ds ss
+  | _, _ => σ
+
+/-- `seq op= k` (after the fix: `astype(copy=False)` keeps the buffer), array_sequence.py:498-534.
+    `none` = `StopIteration` out of `next(elements)` on an empty sequence. -/
+def iop (f : Elem → Elem) (σ : State) (t : Nat) : Option State :=
+  let s := σ.seqAt t
+  if s.ranges.isEmpty then none else some (opLoop f σ s.buf s.buf s.ranges s.ranges)
+
+/-- `seq op k` : works on `self.copy()`, reading from `self` -/
+def opNew (f : Elem → Elem) (σ : State) (t : Nat) : Option State :=
+  let s := σ.seqAt t
+  let (σ', c) := copySeq σ t
+  if s.ranges.isEmpty then none
+  else some ((opLoop f σ' c.buf s.buf c.ranges s.ranges).addSeq c)
+
+/-! ### the ORIGINAL (pinned) logic of the two repaired defects -/
+
+/-- pinned `append`: no `_own_data()` — a view grows inside the shared buffer -/
+def appendOrig (σ : State) (t : Nat) (el : Elem) (w dt : Nat) : State :=
+  if el.isEmpty then σ else
+  let (σ1, c) := appendCore σ t el (mkCache σ t w dt)
+  updateSeq σ1 t c
+
+/-- pinned in-place `_op`: the first element is computed in the shared buffer, then
+    `seq._data = seq._data.astype(tmp.dtype)` COPIES the buffer and the remaining elements are
+    written to the private copy -/
+def iopOrig (f : Elem → Elem) (σ : State) (t : Nat) : Option State :=
+  let s := σ.seqAt t
+  match s.ranges with
+  | [] => none
+  | r :: rs =>
+    let σ1 := setRange σ s.buf r (f ((σ.bufAt s.buf).slice r.1 r.2))
+    let (σ2, id) := σ1.alloc (σ1.bufAt s.buf)
+    let σ3 := σ2.setSeq t { s with buf := id }
+    some (opLoop f σ3 id id rs rs)
+
+/-! ### operations of a history -/
+
+inductive Op where
+  | new (bufBytes : Nat)                                   -- `ArraySequence(buffer_size=…)`
+  | append (t : Nat) (w dt : Nat) (el : Elem)              -- `s.append(el)`
+  | extend (t : Nat) (w dt : Nat) (els : List Elem)        -- `s.extend([..])`
+  | extendGen (t : Nat) (w dt : Nat) (els : List Elem)     -- `s.extend(e for e in [..])`, cached append+finalize
+  | extendSeq (t u : Nat) (w : Nat)                        -- `s.extend(other_sequence)`
+  | view (t : Nat) (bufBytes : Nat)                        -- `ArraySequence(s)`
+  | copy (t : Nat)                                         -- `s.copy()`
+  | slice (t : Nat) (sl : PySlice)                         -- `s[a:b:c]`
+  | fancy (t : Nat) (idx : List Int)                       -- `s[[i,j,…]]`
+  | mask (t : Nat) (m : List Bool)                         -- `s[np.array([True,…])]`
+  | getInt (t : Nat) (i : Int)                             -- `s[i]` (no state change)
+  | setInt (t : Nat) (i : Int) (el : Elem)                 -- `s[i] = arr`
+  | setSlice (t : Nat) (sl : PySlice) (els : List Elem)    -- `s[a:b:c] = [arr,…]`
+  | iop (t : Nat) (code : Nat) (k : Int)                   -- `s += k` / `s *= k` / `s -= k`
+  | op (t : Nat) (code : Nat) (k : Int)                    -- `s + k` …
+  | concat (ts : List Nat) (w : Nat)                       -- `concatenate([..], axis=0)`
+  deriving Repr, DecidableEq, Inhabited
+
+inductive Err where
+  | index      -- IndexError
+  | value      -- ValueError
+  | stopIter   -- StopIteration (arithmetic on a sequence without elements)
+  | bad        -- ill-formed operation (unknown sequence id, wrong element sizes): not generated
+  deriving Repr, DecidableEq, Inhabited
+
+/-- `s.extend(u)` with `u` an ArraySequence: `len(u)`, `u[0]` and iteration read `u`'s arrays;
+    they are read here up front (the loop writes only rows no live range covers) -/
+def extendSeq (σ : State) (t u : Nat) (w : Nat) : State :=
+  extendList σ t (σ.contents u) w (σ.bufAt (σ.seqAt u).buf).dt
+
+/-- `concatenate(seqs, axis=0)`, array_sequence.py:602-624 -/
+def concatRest (σ : State) (t : Nat) (w : Nat) : List Nat → State
+  | [] => σ
+  | u :: us => concatRest (extendSeq σ t u w) t w us
+
+/-- element sizes must match the ranges they are written to (NumPy would broadcast or raise) -/
+def sizesMatch (rs : List (Nat × Nat)) (els : List Elem) : Bool :=
+  rs.length == els.length && (rs.zip els).all (fun p => p.1.2 == p.2.length)
+
+def step (σ : State) : Op → Except Err State
+  | .new bb =>
+      let (σ', id) := σ.alloc { rows := [], cap := 0, dt := 0 }
+      .ok (σ'.addSeq { buf := id, ranges := [], isView := false, bufBytes := bb })
+  | .append t w dt el => if t < σ.seqs.length then .ok (append σ t el w dt) else .error .bad
+  | .extend t w dt els => if t < σ.seqs.length then .ok (extendList σ t els w dt) else .error .bad
+  | .extendGen t w dt els => if t < σ.seqs.length then .ok (extendGen σ t els w dt) else .error .bad
+  | .extendSeq t u w =>
+      if t < σ.seqs.length ∧ u < σ.seqs.length then .ok (extendSeq σ t u w) else .error .bad
+  | .view t bb => if t < σ.seqs.length then .ok (viewCtor σ t bb) else .error .bad
+  | .copy t => if t < σ.seqs.length then .ok (copyOp σ t) else .error .bad
+  | .slice t sl =>
+      if t < σ.seqs.length then
+        if sl.stepVal = 0 then .error .value
+        else .ok (getView σ t (sl.sel (σ.seqAt t).ranges.length))
+      else .error .bad
+  | .fancy t idx =>
+      if t < σ.seqs.length then
+        match fancyPos (σ.seqAt t).ranges.length idx with
+        | some pos => .ok (getView σ t pos)
+        | none => .error .index
+      else .error .bad
+  | .mask t m =>
+      if t < σ.seqs.length then
+        match maskPos (σ.seqAt t).ranges.length m with
+        | some pos => .ok (getView σ t pos)
+        | none => .error .index
+      else .error .bad
+  | .getInt t i =>
+      if t < σ.seqs.length then
+        match pyIntIndex (σ.seqAt t).ranges.length i with
+        | some _ => .ok σ
+        | none => .error .index
+      else .error .bad
+  | .setInt t i el =>
+      if t < σ.seqs.length then
+        match pyIntIndex (σ.seqAt t).ranges.length i with
+        | some j =>
+            let r := (σ.seqAt t).ranges.getD j default
+            if r.2 = el.length then .ok (setRange σ (σ.seqAt t).buf r el) else .error .bad
+        | none => .error .index
+      else .error .bad
+  | .setSlice t sl els =>
+      if t < σ.seqs.length then
+        if sl.stepVal = 0 then .error .value
+        else
+          let rs := (sl.sel (σ.seqAt t).ranges.length).filterMap (fun i => (σ.seqAt t).ranges[i]?)
+          if sizesMatch rs els then .ok (setMany σ (σ.seqAt t).buf rs els) else .error .bad
+      else .error .bad
+  | .iop t code k =>
+      if t < σ.seqs.length then
+        match iop (arith code k) σ t with
+        | some σ' => .ok σ'
+        | none => .error .stopIter
+      else .error .bad
+  | .op t code k =>
+      if t < σ.seqs.length then
+        match opNew (arith code k) σ t with
+        | some σ' => .ok σ'
+        | none => .error .stopIter
+      else .error .bad
+  | .concat ts w =>
+      match ts with
+      | [] => .error .index
+      | t :: us =>
+          if (t :: us).all (· < σ.seqs.length) then
+            let σ1 := copyOp σ t
+            .ok (concatRest σ1 σ.seqs.length w us)
+          else .error .bad
+
+/-- the value `s[i]` returns -/
+def getInt (σ : State) (t : Nat) (i : Int) : Option Elem :=
+  (pyIntIndex (σ.seqAt t).ranges.length i).map (fun j =>
+    let r := (σ.seqAt t).ranges.getD j default
+    (σ.bufAt (σ.seqAt t).buf).slice r.1 r.2)
+
+/-- run a history; an operation that raises leaves the state unchanged -/
+def run (σ : State) : List Op → State
+  | [] => σ
+  | op :: ops => match step σ op with
+    | .ok σ' => run σ' ops
+    | .error _ => run σ ops
 
 end Nb.C15
